@@ -1,6 +1,7 @@
 """Parsing IR-code from a textual form."""
 
 from binascii import unhexlify
+import json
 import re
 from .. import ir
 
@@ -29,6 +30,7 @@ def tokenize(lines):
         ("FLOAT", r"\-?\d+(?:\.\d+(?:e[+-]?\d+)?|e[+-]?\d+)|\-inf\b"),
         ("INT", r"\-?\d+"),
         ("STRING", r"'[^']*'"),
+        ("TEXT", r'"(?:[^"\\]|\\.)*"'),
         ("ID", r"[A-Za-z_][A-Za-z\d_]*"),
         ("SKIP", r"\s+"),
         (
@@ -59,6 +61,15 @@ def tokenize(lines):
                 yield (typ, float(val), row, pos)
             elif typ == "STRING":
                 yield (typ, val[1:-1], row, pos)
+            elif typ == "TEXT":
+                # A text with json escapes, for example "a\n"
+                try:
+                    val = json.loads(val)
+                except ValueError:
+                    raise IrParseException(
+                        f"Invalid text at row {row}, column {pos}"
+                    )
+                yield (typ, val, row, pos)
             else:
                 raise NotImplementedError(str(typ))
             pos = mo.end()
@@ -483,6 +494,8 @@ class Reader:
             amount = self.parse_integer()
             self.consume(")")
             ins = ir.CopyBlob(dst, src, amount)
+        elif self.at_keyword("asm"):
+            ins = self.parse_inline_asm()
         elif self.at_keyword("exit"):
             self.consume_keyword("exit")
             ins = ir.Exit()
@@ -496,6 +509,47 @@ class Reader:
             self.define_value(ins)
         self.consume(";")
         return ins
+
+    def parse_inline_asm(self):
+        """Parse inline assembly.
+
+        Shape: asm ("template" : outputs : inputs : "clobbers")
+        Sections at the end may be left out.
+        """
+        self.consume_keyword("asm")
+        self.consume("(")
+        template = self.consume("TEXT")[1]
+        outputs, inputs, clobbers = [], [], []
+        if self.peek == ":":
+            self.consume(":")
+            outputs = self.parse_inline_asm_values()
+        if self.peek == ":":
+            self.consume(":")
+            inputs = self.parse_inline_asm_values()
+        if self.peek == ":":
+            self.consume(":")
+            if self.peek == "TEXT":
+                clobbers.append(self.consume("TEXT")[1])
+                while self.peek == ",":
+                    self.consume(",")
+                    clobbers.append(self.consume("TEXT")[1])
+        self.consume(")")
+        ins = ir.InlineAsm(template, clobbers)
+        for value in inputs:
+            ins.add_input_variable(value)
+        for value in outputs:
+            ins.add_output_variable(value)
+        return ins
+
+    def parse_inline_asm_values(self):
+        """Parse a possibly empty list of value references."""
+        values = []
+        if self.peek == "ID":
+            values.append(self.parse_value_ref())
+            while self.peek == ",":
+                self.consume(",")
+                values.append(self.parse_value_ref())
+        return values
 
     def parse_cjmp(self):
         self.consume_keyword("cjmp")
